@@ -151,11 +151,40 @@ pub fn extract_item(ctx: &mut Ctx, blk: &Block) -> Result<(String, Value), Strin
         }
     }
     // inner attributes / docs of fields and variants removed; field visibility widened (N4)
+    // N11: a struct may be projected onto the fields the extracted functions mention
+    let keep_fields: Option<Vec<String>> = blk.opt("keep").map(|k| k.split(',').map(|s| s.to_string()).collect());
+    if let (Some(kf), syn::Item::Struct(st)) = (&keep_fields, it) {
+        if let syn::Fields::Named(named) = &st.fields {
+            let names: Vec<String> = named.named.iter().map(|f| f.ident.as_ref().unwrap().to_string()).collect();
+            for k in kf {
+                if !names.contains(k) {
+                    return Err(format!("lost anchor: struct {name} has no field `{k}`"));
+                }
+            }
+            let fields: Vec<&syn::Field> = named.named.iter().collect();
+            for (i, f) in fields.iter().enumerate() {
+                let id = f.ident.as_ref().unwrap().to_string();
+                if !kf.contains(&id) {
+                    // remove from the start of the field (incl. attrs) to the start of the next field / closing brace
+                    let s0 = offs.range(src, f.span()).0;
+                    let e0 = if i + 1 < fields.len() {
+                        offs.range(src, fields[i + 1].span()).0
+                    } else {
+                        offs.range(src, named.brace_token.span.close()).0
+                    };
+                    ed.replace(s0, e0, "", "N11", &format!("field `{id}` dropped (not mentioned by extracted code)"));
+                }
+            }
+        } else {
+            return Err("keep= on a struct without named fields".into());
+        }
+    }
     struct V<'a, 's> {
         ed: &'a mut Edits<'s>,
         offs: &'a Offsets,
         src: &'s str,
         in_variant: bool,
+        keep: Option<Vec<String>>,
     }
     impl<'a, 's, 'ast> Visit<'ast> for V<'a, 's> {
         fn visit_variant(&mut self, v: &'ast syn::Variant) {
@@ -168,6 +197,11 @@ pub fn extract_item(ctx: &mut Ctx, blk: &Block) -> Result<(String, Value), Strin
             self.in_variant = false;
         }
         fn visit_field(&mut self, f: &'ast syn::Field) {
+            if let (Some(k), Some(id)) = (&self.keep, &f.ident) {
+                if !k.contains(&id.to_string()) {
+                    return;
+                }
+            }
             for a in &f.attrs {
                 let (s, e) = self.offs.range(self.src, a.span());
                 self.ed.replace(s, e, "", "N3", "field attribute/doc removed");
@@ -194,7 +228,7 @@ pub fn extract_item(ctx: &mut Ctx, blk: &Block) -> Result<(String, Value), Strin
         }
     }
     {
-        let mut v = V { ed: &mut ed, offs: &offs, src, in_variant: false };
+        let mut v = V { ed: &mut ed, offs: &offs, src, in_variant: false, keep: keep_fields.clone() };
         v.visit_item(it);
     }
     // the visitor also visits the outer attrs' nothing; outer attrs are before kw_start, so untouched
@@ -213,6 +247,16 @@ pub fn extract_item(ctx: &mut Ctx, blk: &Block) -> Result<(String, Value), Strin
     text.push_str("pub ");
     text.push_str(&body);
     text.push('\n');
+    // N13: a derived Clone without Copy has no specification in Verus: give it the field-wise one
+    let src_derives_clone = attrs.iter().any(|a| a.path().is_ident("derive") && a.to_token_stream().to_string().contains("Clone"));
+    let src_derives_copy = attrs.iter().any(|a| a.path().is_ident("derive") && a.to_token_stream().to_string().contains("Copy"));
+    if blk.flag("clone_spec") && src_derives_clone && !src_derives_copy {
+        text = text.replace("#[derive(Clone)]\n", "").replace("#[derive(Clone, ", "#[derive(");
+        text.push_str(&format!(
+            "impl Clone for {name} {{\n    #[verifier::external_body]\n    fn clone(&self) -> (r: Self) ensures r == *self {{ unimplemented!() }}\n}}\n"
+        ));
+        ed.list.push(Edit { start: kw_start, end: kw_start, text: String::new(), rule: "N13".into(), note: "derived Clone replaced by its field-wise specification".into() });
+    }
     let (s0, _) = offs.range(src, it.span());
     let rep = json!({
         "item": format!("{kind} {name}"), "file": file,
@@ -381,6 +425,20 @@ pub fn extract_fn(ctx: &mut Ctx, blk: &Block) -> Result<(String, Value), String>
         ed.insert(body_open + 1, &t, "spec", "proof prologue");
     }
 
+    // ---- N8: backward slice of a constructor on the kept fields of its final struct literal
+    if let Some(sl) = blk.opt("slice") {
+        let kept: Vec<String> = sl.split(',').map(|s| s.to_string()).collect();
+        let (text, dropped) = ctor_slice(src, &offs, &f, &kept)?;
+        let (bs, be) = offs.range(src, f.block.span());
+        ed.replace(bs, be, &text, "N8", &format!("constructor sliced on fields {sl}; {dropped} statement(s) and the other fields dropped"));
+        // re-insert the contract in front of the new body (the insertion at body_open is still valid: it precedes bs)
+        let text = ed.apply(sig_start, body_end)?;
+        let mut rep = fn_header_report(src, &offs, &f, &file, &path);
+        rep["rewrites"] = json!(ed.report());
+        rep["mode"] = json!("extract+slice");
+        return Ok((text, rep));
+    }
+
     // ---- body
     let mut col = Collect::default();
     col.visit_block(f.block);
@@ -496,4 +554,125 @@ pub fn extract_fn(ctx: &mut Ctx, blk: &Block) -> Result<(String, Value), String>
     rep["rewrites"] = json!(ed.report());
     rep["mode"] = json!("extract");
     Ok((text, rep))
+}
+
+
+struct Idents(std::collections::HashSet<String>);
+impl<'ast> Visit<'ast> for Idents {
+    fn visit_ident(&mut self, i: &'ast proc_macro2::Ident) {
+        self.0.insert(i.to_string());
+    }
+    fn visit_macro(&mut self, m: &'ast syn::Macro) {
+        // identifiers inside macro invocations count as mentioned
+        for t in m.tokens.clone() {
+            collect_tt(&t, &mut self.0);
+        }
+    }
+}
+fn collect_tt(t: &proc_macro2::TokenTree, out: &mut std::collections::HashSet<String>) {
+    match t {
+        proc_macro2::TokenTree::Ident(i) => {
+            out.insert(i.to_string());
+        }
+        proc_macro2::TokenTree::Group(g) => {
+            for x in g.stream() {
+                collect_tt(&x, out);
+            }
+        }
+        _ => {}
+    }
+}
+fn pat_idents(p: &syn::Pat, out: &mut Vec<(String, bool)>) {
+    match p {
+        syn::Pat::Ident(i) => out.push((i.ident.to_string(), i.mutability.is_some())),
+        syn::Pat::Tuple(t) => t.elems.iter().for_each(|e| pat_idents(e, out)),
+        syn::Pat::TupleStruct(t) => t.elems.iter().for_each(|e| pat_idents(e, out)),
+        syn::Pat::Type(t) => pat_idents(&t.pat, out),
+        syn::Pat::Reference(r) => pat_idents(&r.pat, out),
+        syn::Pat::Struct(s) => s.fields.iter().for_each(|f| pat_idents(&f.pat, out)),
+        _ => {}
+    }
+}
+
+/// N8.  The body must end in a struct literal.  Result: the statements the kept fields depend on
+/// (backward slice; a statement is needed if it binds a needed name, or mentions a needed name
+/// that is declared `mut`), followed by the literal restricted to the kept fields.
+fn ctor_slice(src: &str, offs: &Offsets, f: &FnRef, kept: &[String]) -> Result<(String, usize), String> {
+    let stmts = &f.block.stmts;
+    let Some(syn::Stmt::Expr(syn::Expr::Struct(lit), None)) = stmts.last() else {
+        return Err("construct outside rule list: constructor does not end in a struct literal (N8)".into());
+    };
+    if lit.rest.is_some() {
+        return Err("construct outside rule list: struct literal with `..rest` (N8)".into());
+    }
+    let mut needed: std::collections::HashSet<String> = Default::default();
+    let mut fields_text = Vec::new();
+    for k in kept {
+        let fv = lit
+            .fields
+            .iter()
+            .find(|fv| matches!(&fv.member, syn::Member::Named(n) if n == k))
+            .ok_or(format!("lost anchor: struct literal has no field `{k}`"))?;
+        let mut ids = Idents(Default::default());
+        ids.visit_expr(&fv.expr);
+        needed.extend(ids.0);
+        let (s, e) = offs.range(src, fv.span());
+        fields_text.push(src[s..e].to_string());
+    }
+    let mut mutable: std::collections::HashSet<String> = Default::default();
+    for a in &f.sig.inputs {
+        if let syn::FnArg::Typed(t) = a {
+            let mut v = Vec::new();
+            pat_idents(&t.pat, &mut v);
+            for (n, m) in v {
+                if m {
+                    mutable.insert(n);
+                }
+            }
+        }
+    }
+    for st in stmts {
+        if let syn::Stmt::Local(l) = st {
+            let mut v = Vec::new();
+            pat_idents(&l.pat, &mut v);
+            for (n, m) in v {
+                if m {
+                    mutable.insert(n);
+                }
+            }
+        }
+    }
+    let mut included: Vec<usize> = Vec::new();
+    for (i, st) in stmts.iter().enumerate().rev().skip(1) {
+        let mut ids = Idents(Default::default());
+        ids.visit_stmt(st);
+        let binds: Vec<String> = if let syn::Stmt::Local(l) = st {
+            let mut v = Vec::new();
+            pat_idents(&l.pat, &mut v);
+            v.into_iter().map(|x| x.0).collect()
+        } else {
+            vec![]
+        };
+        let need = binds.iter().any(|b| needed.contains(b))
+            || (!matches!(st, syn::Stmt::Local(_)) && ids.0.iter().any(|n| needed.contains(n) && mutable.contains(n)))
+            || (matches!(st, syn::Stmt::Local(_)) && ids.0.iter().any(|n| needed.contains(n) && mutable.contains(n)) && {
+                // a `let` that takes `&mut needed`
+                st.to_token_stream().to_string().contains("& mut")
+            });
+        if need {
+            included.push(i);
+            needed.extend(ids.0);
+        }
+    }
+    included.reverse();
+    let mut out = String::from("{\n");
+    for i in &included {
+        let (s, e) = offs.range(src, stmts[*i].span());
+        out.push_str("        ");
+        out.push_str(&src[s..e]);
+        out.push('\n');
+    }
+    let (ps, pe) = offs.range(src, lit.path.span());
+    out.push_str(&format!("        {} {{ {} }}\n    }}", &src[ps..pe], fields_text.join(", ")));
+    Ok((out, stmts.len() - 1 - included.len()))
 }
